@@ -57,6 +57,8 @@ struct Obj
   virtual void eset(size_t k, size_t q, double v) = 0;
   virtual std::unique_ptr<Obj> clone(CloneMode m) const = 0;
   virtual std::unique_ptr<Obj> share_convert() const = 0;       // same-type convert: shares all arrays
+  virtual void clone_into(const Obj& other, CloneMode m) = 0;    // this->clone(other, m): an EXISTING object (possibly a range view) is the target
+  virtual void share_into(const Obj& other) = 0;                // this->convert(other) on an existing object
   virtual std::unique_ptr<Obj> move_construct() = 0;            // new object from std::move(*this)
   virtual void move_assign(Obj& other) = 0;                     // this = std::move(other)   (same kind)
   virtual void clear() = 0;
@@ -80,6 +82,8 @@ template<typename C, int K> struct ObjT : Obj
   void eset(size_t k, size_t q, double v) override { c.get_elements()[k][q] = DT(v); }
   std::unique_ptr<Obj> clone(CloneMode m) const override { return std::unique_ptr<Obj>(new ObjT(c.clone(m))); }
   std::unique_ptr<Obj> share_convert() const override { auto* o = new ObjT(); o->c.convert(c); return std::unique_ptr<Obj>(o); }
+  void clone_into(const Obj& other, CloneMode m) override { c.clone(static_cast<const ObjT&>(other).c, m); }
+  void share_into(const Obj& other) override { c.convert(static_cast<const ObjT&>(other).c); }
   std::unique_ptr<Obj> move_construct() override { return std::unique_ptr<Obj>(new ObjT(std::move(c))); }
   void move_assign(Obj& other) override { c = std::move(static_cast<ObjT&>(other).c); }
   void clear() override { c.clear(); }
@@ -213,10 +217,16 @@ static void history_case(Tape& t, Ctx& c)
     case O_BUILD: { int kind = t.range(0, K_COUNT - 1); h.set("op", opn); h.set("dst", di); h.set("kind", kname[kind]); auto nb = build(t, kind, h); w.note(h, opn); w.drop(di); w.o[di] = std::move(nb); w.adopt(di); break; }
     case O_CLONE: { int mode = src.view ? 3 : t.range(0, 4); if(di == si) di = (si + 1) % 8; static const char* mn[] = {"shallow", "layout", "weak", "deep", "allocate"};
       opn = std::string("clone:") + mn[mode]; h.set("op", opn); h.set("src", si); h.set("dst", di); w.note(h, opn);
-      auto nb = w.o[si]->clone((CloneMode)mode);
+      // an existing object of the same kind in the target slot (a range view included) is RE-USED as the target of clone(other, mode), unless the
+      // source is a view into an array only the target owns (clone() clears the target first: documented misuse)
+      bool into = w.m.s[di].kind == src.kind && w.o[di]; if(into && src.view && !w.m.s[di].view) for(int id : w.m.s[di].e) if(id == src.e[0] && w.m.owners(id) == 1) into = false;
+      if(into) c.label(w.m.s[di].view ? "clone-into:view-target" : "clone-into:existing-target");
+      std::unique_ptr<Obj> nb; if(!into) nb = w.o[si]->clone((CloneMode)mode);
       // snapshot what the model needs from the source first: dropping dst may take a source *view* with it
       std::vector<double> viewvals; bool viewdef = true; if(src.view) { const Arr& a = w.m.arr.at(src.e[0]); viewdef = a.defined; viewvals.assign(a.dv.begin() + (long)src.off, a.dv.begin() + (long)(src.off + src.len)); }
-      w.drop(di); w.o[di] = std::move(nb);
+      if(into) { std::unique_ptr<Obj> keep = std::move(w.o[di]); w.drop(di); if(w.m.s[si].kind < 0 || !w.o[si]) { keep.reset(); --st; continue; } keep->clone_into(*w.o[si], (CloneMode)mode); nb = std::move(keep); }
+      else w.drop(di);
+      w.o[di] = std::move(nb);
       MSlot ms; ms.kind = src.kind;
       if(src.view) ms.e.push_back(w.m.add_e(src.len, 8, viewvals, viewdef));
       else
@@ -228,7 +238,10 @@ static void history_case(Tape& t, Ctx& c)
       if(mode == 4) { w.check(opn); w.drop(di); }   // Allocate: arrays uninitialised by definition; only lifetime/accounting is checked
       break; }
     case O_SHARE: { if(di == si) di = (si + 1) % 8; h.set("op", opn); h.set("src", si); h.set("dst", di); w.note(h, opn);
-      auto nb = w.o[si]->share_convert(); w.drop(di); w.o[di] = std::move(nb); w.m.s[di] = src; break; }
+      const bool into = w.m.s[di].kind == src.kind && w.o[di]; if(into) c.label(w.m.s[di].view ? "convert-into:view-target" : "convert-into:existing-target");
+      if(into) { std::unique_ptr<Obj> keep = std::move(w.o[di]); w.drop(di); if(w.m.s[si].kind < 0 || !w.o[si]) { keep.reset(); --st; continue; } keep->share_into(*w.o[si]); w.o[di] = std::move(keep); }
+      else { auto nb = w.o[si]->share_convert(); w.drop(di); w.o[di] = std::move(nb); }
+      w.m.s[di] = src; break; }
     case O_XCONV: { // DV64<->DV32, CSR64<->CSR32: copies into new arrays of the other types
       int tk = -1; switch(src.kind) { case K_DV64: tk = K_DV32; break; case K_DV32: tk = K_DV64; break; case K_CSR64: tk = K_CSR32; break; case K_CSR32: tk = K_CSR64; break; default: break; }
       if(tk < 0 && (src.kind == K_BCSR22 || src.kind == K_CSCR || src.kind == K_BAND))
